@@ -72,8 +72,52 @@ def concurrent(ctx, v, n):
     return conf, r1
 
 
+def error_reports(ctx, v, only=None):
+    """The error-report channel (spec/ErrRep.tla): capacity 1, offers never wait, first offer wins, FIFO.
+    R1 with two sensitivity configurations, every operation history up to the bound replayed on a real ServeMux
+    (and the E/D ones through sm.StateMachine), results validated by TLC (spec/ErrRepTrace.tla)."""
+    quick = ctx.tier == "quick"
+    if only is not None:
+        cases, g = [dict(ops=only)], dict(generated=0, distinct=0)
+    else:
+        g = vlib.tlc_generate(ctx.scratch, "ErrRep", "ErrRep_quick.cfg" if quick else "ErrRep_thorough.cfg", workers=4, timeout=900)
+        cases = g["cases"]
+        vlib.tlc_check(ctx.scratch, "ErrRep", "ErrRep_blocking.cfg", workers=1, expect_violation="NeverWaits")
+        vlib.tlc_check(ctx.scratch, "ErrRep", "ErrRep_cap2.cfg", workers=1)
+    d = ctx.scratch.sub("er")
+    cpath, tpath = os.path.join(d, "cases.ndjson"), os.path.join(d, "trace.ndjson")
+    vlib.write_ndjson(cpath, cases)
+    p = vlib.run_harness(ctx.harness, ["errrep", "-cases", cpath, "-out", tpath, "-seed", str(ctx.seed), "-repo", vlib.REPO], timeout=1200)
+    if p.returncode != 0:
+        raise vlib.Infra("errrep driver failed: " + p.stderr[-2000:])
+    lines = vlib.read_ndjson(tpath)
+    bad, st = vlib.tlc_validate(ctx.scratch, "ErrRepTrace", "ErrRepTrace.cfg", lines, timeout=900)
+    for i, why in bad:
+        line = lines[i]
+        kind = "stuck" if line["stuck"] else "result"
+        v.report("errrep:%s:%s" % (line["via"], kind), dict(driver="errrep", ops=line["ops"]),
+                 detail="ops=%s results=%s stuck_at=%d (capacity-1 channel, non-blocking offers, FIFO expected)" % ("".join(line["ops"]), line["res"], line["stuck"]))
+    ctx.log("error reports: %d histories (R1 %d states; blocking send violates NeverWaits as it must), %d lines replayed on a real ServeMux / StateMachine, %d rejected" % (len(cases), g["distinct"], len(lines), len(bad)))
+    return dict(histories=len(cases), lines=len(lines), rejected=len(bad), stuck=sum(1 for l in lines if l["stuck"]), tlc_states=g["distinct"] + st["distinct"])
+
+
 def run(ctx):
     quick = ctx.tier == "quick"
+    if ctx.replay and json.load(open(ctx.replay)).get("case", {}).get("driver") == "errrep":
+        v = vlib.Verdict("C09")
+        er = error_reports(ctx, v, only=json.load(open(ctx.replay))["case"]["ops"])
+        rc = v.finish()
+        vlib.write_evidence("C09", ctx.tier, ctx.seed, dict(states=er["tlc_states"], transitions=er["tlc_states"], traces_validated_against_impl=er["lines"], evaluations=er["lines"],
+                            rule="replay of one error-report history", error_report_channel=er, exhaustive=False), ctx.wall(), v.nviol, ["TLC evaluates ErrRep faithfully"])
+        return rc
+    v = vlib.Verdict("C09")
+    # first: a dispatch that waits for a reader of ErrorReports() would hang every later driver
+    er = dict(status="skipped", tlc_states=0) if ctx.replay else error_reports(ctx, v)
+    if er.get("stuck"):
+        rc = v.finish()
+        vlib.write_evidence("C09", ctx.tier, ctx.seed, dict(states=er["tlc_states"], transitions=er["tlc_states"], traces_validated_against_impl=er["lines"], evaluations=er["lines"],
+                            rule="stopped after the error-report channel histories were rejected", error_report_channel=er, exhaustive=False), ctx.wall(), v.nviol, ["TLC evaluates ErrRep faithfully"])
+        return rc
     if ctx.replay:
         cases = [json.load(open(ctx.replay))["case"]]
         g = dict(generated=0, distinct=0)
@@ -90,7 +134,6 @@ def run(ctx):
     lines = vlib.read_ndjson(tpath)
     bad, st = vlib.tlc_validate(ctx.scratch, "MuxTrace", "MuxTrace.cfg", lines, timeout=1500)
     ctx.log("R3: %d lines, %d rejected" % (len(lines), len(bad)))
-    v = vlib.Verdict("C09")
     for i, why in bad:
         line = lines[i]
         if "dict" in why:
@@ -103,10 +146,10 @@ def run(ctx):
     for l in lines:
         if len(l["regs"]) >= 2:
             keys.add((l["via"], json.dumps(l["msg"], sort_keys=True), json.dumps(l["regs"], sort_keys=True)))
-    cov = dict(states=g["distinct"] + st["distinct"] + mr1["distinct"], transitions=g["generated"] + st["generated"] + mr1["generated"], concurrent_conformance=conf,
+    cov = dict(states=g["distinct"] + st["distinct"] + mr1["distinct"] + er["tlc_states"], error_report_channel=er, transitions=g["generated"] + st["generated"] + mr1["generated"], concurrent_conformance=conf,
                traces_validated_against_impl=len(lines), evaluations=len(lines), distinct_nontrivial=len(keys),
                rule="every subset of the 8-key neighbourhood (own index/name/ALL, neighbours differing in application, code, R bit) x 6 messages, plus re-registration of registered keys, "
-                    "replayed on a real ServeMux directly and (every 8th case) behind a connection over memnet; non-trivial = at least two registrations; distinct by (path, message, registration history) Since extended: base commands under an application id no dictionary defines; every third case after a warm-up dispatch of the same index carrying a dictionary that lacks the command; registrations concurrent with dispatch: spec/MuxImpl.tla (RW lock with writer preference, handler called under the read lock) model-checked for 2 dispatchers x 2 calls and 2 registrars x 1 (thorough: 2) registrations, and recorded concurrent histories (3 dispatchers, 2 registrars, handlers of several durations) validated against it with the lock operations as silent steps.",
+                    "replayed on a real ServeMux directly and (every 8th case) behind a connection over memnet; non-trivial = at least two registrations; distinct by (path, message, registration history) Since extended: base commands under an application id no dictionary defines; every third case after a warm-up dispatch of the same index carrying a dictionary that lacks the command; registrations concurrent with dispatch: spec/MuxImpl.tla (RW lock with writer preference, handler called under the read lock) model-checked for 2 dispatchers x 2 calls and 2 registrars x 1 (thorough: 2) registrations, and recorded concurrent histories (3 dispatchers, 2 registrars, handlers of several durations) validated against it with the lock operations as silent steps. The error-report channel (spec/ErrRep.tla: capacity 1, offers never wait, first offer wins, FIFO): every history of unmatched dispatch / matched dispatch / direct Error() / non-blocking receive up to the bound, with nobody else reading, replayed on a real ServeMux and (E/D histories) through sm.StateMachine.",
                samples=[dict(msg=l["msg"], regs=l["regs"][:3], fired=l["fired"], reports=l["reports"]) for l in lines[5:len(lines):max(1, len(lines) // 3)]][:3],
                exhaustive=True, rejected_lines=len(bad), known_finding_hits={k: n for k, (n, _) in v.hits.items()})
     rc = v.finish()
